@@ -23,11 +23,12 @@ type delivery struct {
 
 // analysis is the parsed observation (also the input of the model witness).
 type analysis struct {
-	Delivered []delivery    // in connection order, then position
-	BySid     map[int]int   // sid -> index in Delivered (first)
-	TailSid   map[int]int   // conn -> sid whose strict prefix is the tail (-1 none)
-	TailLen   map[int]int   // conn -> tail length
-	Frames    map[int][]int // conn -> sids in order
+	Delivered []delivery           // in connection order, then position
+	BySid     map[int]int          // sid -> index in Delivered (first)
+	TailSid   map[int]int          // conn -> sid whose strict prefix is the tail (-1 none)
+	TailLen   map[int]int          // conn -> tail length
+	TailCands map[int]map[int]bool // conn -> sends whose frame has the tail as a strict prefix
+	Frames    map[int][]int        // conn -> sids in order
 }
 
 // checkSpec decides the property directly on what was observed:
@@ -63,7 +64,8 @@ func checkSpec(o *observation) ([]finding, *analysis) {
 	for _, s := range o.Sends {
 		bySid[s.Sid] = s
 	}
-	an := &analysis{BySid: map[int]int{}, TailSid: map[int]int{}, TailLen: map[int]int{}, Frames: map[int][]int{}}
+	an := &analysis{BySid: map[int]int{}, TailSid: map[int]int{}, TailLen: map[int]int{}, Frames: map[int][]int{},
+		TailCands: map[int]map[int]bool{}}
 	decoded := 0
 	for _, c := range o.Conns {
 		frames, tail, bad := parseStream(c.data)
@@ -109,13 +111,16 @@ func checkSpec(o *observation) ([]finding, *analysis) {
 				add("frames_whole:"+mode+":partial-on-live-connection", "connection %d was not closed by the peer yet ends with %d bytes of an incomplete frame", c.Idx, len(tail))
 			}
 			found := false
+			an.TailCands[c.Idx] = map[int]bool{}
 			for _, s := range o.Sends {
 				if len(tail) < len(s.frame) && bytes.Equal(s.frame[:len(tail)], tail) {
-					found = true
-					an.TailSid[c.Idx] = s.Sid
-					if _, whole := an.BySid[s.Sid]; !whole {
-						break
+					an.TailCands[c.Idx][s.Sid] = true
+					if !found {
+						an.TailSid[c.Idx] = s.Sid
+					} else if _, whole := an.BySid[an.TailSid[c.Idx]]; whole {
+						an.TailSid[c.Idx] = s.Sid
 					}
+					found = true
 				}
 			}
 			if !found {
@@ -204,7 +209,9 @@ func checkSpec(o *observation) ([]finding, *analysis) {
 		}
 		if lost != "" {
 			key := "healthy_no_loss:" + mode
-			if mode == "direct" && bgConnected && len(o.Conns) > 1 {
+			if o.Spec.ApplyConfigs > 0 {
+				key = keyD70
+			} else if mode == "direct" && bgConnected && len(o.Conns) > 1 {
 				key = "healthy_no_loss:direct:bgConnect-race"
 			}
 			add(key, "send %d (sender %d #%d, %d bytes) was accepted (nil error) and never received although %s", s.Sid, s.Sender, s.Seq, s.Len, lost)
@@ -213,7 +220,11 @@ func checkSpec(o *observation) ([]finding, *analysis) {
 	if faultFree {
 		for _, s := range o.Sends {
 			if s.Class != "ok" && s.Class != "enqueue" && s.Class != "panic" {
-				add("healthy_no_error:"+mode, "no fault was injected, yet send %d (sender %d #%d, %s) failed: %s", s.Sid, s.Sender, s.Seq, s.Entry, vh.Clip(s.Err, 200))
+				k := "healthy_no_error:" + mode
+				if o.Spec.ApplyConfigs > 0 {
+					k = keyD70 + ":send-error"
+				}
+				add(k, "no fault was injected, yet send %d (sender %d #%d, %s) failed: %s", s.Sid, s.Sender, s.Seq, s.Entry, vh.Clip(s.Err, 200))
 				break
 			}
 		}
